@@ -5,7 +5,7 @@ from common import Config, Job
 COST = {}
 
 
-def shards(cfg, workload, world, n, ops, seed, extra=(), timeout=1800, env_extra=None, nshards_arg=False):
+def shards(cfg, workload, world, n, ops, seed, extra=(), timeout=1800, env_extra=None, nshards_arg=False, variant=""):
     jobs = []
     for s in range(n):
         argv = [workload, f"seed={seed}", f"shard={s}", f"ops={ops}", f"world={world}"] + list(extra)
@@ -13,11 +13,13 @@ def shards(cfg, workload, world, n, ops, seed, extra=(), timeout=1800, env_extra
             argv.append(f"nshards={n}")
         if cfg.tool.startswith("miri"):
             argv.append("small=1")
-        jobs.append(Job(cfg, argv, timeout=timeout, env_extra=env_extra))
+        jobs.append(Job(cfg, argv, timeout=timeout, env_extra=env_extra, variant=variant))
     return jobs
 
 
 MIRI_NOLEAK = {"MIRIFLAGS": "-Zmiri-ignore-leaks"}
+MIRI_TB = {"MIRIFLAGS": "-Zmiri-tree-borrows"}
+MIRI_STRICT = {"MIRIFLAGS": "-Zmiri-strict-provenance -Zmiri-symbolic-alignment-check"}
 ASAN_NOLEAK = {"ASAN_OPTIONS": "detect_leaks=0:halt_on_error=1:abort_on_error=0:exitcode=98"}
 
 
@@ -27,6 +29,9 @@ def lean_jobs(tier, seed, features=()):
     jobs = shards(Config("miri-dbg", features), "lean", "main", 2 * k, 1200, seed + 6000, timeout=3000)
     jobs += shards(Config("miri-rel", features), "lean", "main", 2 * k, 1200, seed + 6100, timeout=3000)
     jobs += shards(Config("asan", features), "lean", "main", 2, 60000 * k, seed + 6200, timeout=3000)
+    # second opinions on the aliasing / provenance / alignment rules: same build, other interpreter settings
+    jobs += shards(Config("miri-rel", features), "lean", "main", k, 1200, seed + 6400, timeout=3000, env_extra=MIRI_TB, variant="tree-borrows")
+    jobs += shards(Config("miri-dbg", features), "lean", "main", k, 1200, seed + 6500, timeout=3000, env_extra=MIRI_STRICT, variant="strict-provenance+symbolic-alignment")
     if tier == "thorough":
         jobs += shards(Config("vg", features), "lean", "main", 4, 30000, seed + 6300, timeout=3000)
     return jobs
